@@ -9,6 +9,7 @@ import M4riProofs.Bridge
 import M4riProofs.GenTie
 import M4riProofs.GenTieMem
 import M4riProofs.GenTieSlice
+import M4riProofs.GenTieMove
 namespace M4ri.Props.C08
 open M4ri M4ri.Mzd
 
@@ -120,5 +121,16 @@ theorem transpose_involutive (B : BMat) (h : B.WF) : B.transpose.transpose = B :
 #check @M4ri.GenTieSlice.extractLClear_square
 #check @M4ri.GenTieSlice.extractUClear_extractUInto
 #check @M4ri.GenTieSlice.extractLClear_extractLInto
+
+
+/-! ### tie to the C text: `mzd_copy`, `mzd_submatrix` (aligned path with memcpy + masked last word, unaligned path), `mzd_concat`, `mzd_stack` for a
+    supplied destination, generated on every check and proved equal to `copyInto` / `submatrixInto` / `concatInto` / `stackInto` (GenTieMove.lean) -/
+#check @M4ri.GenTieMove.mzdCopy_eq
+#check @M4ri.GenTieMove.mzdCopy_same
+#check @M4ri.GenTieMove.mzdSubmatrix_eq
+#check @M4ri.GenTieMove.mzdSubmatrix_aligned_eq
+#check @M4ri.GenTieMove.mzdSubmatrix_unaligned_eq
+#check @M4ri.GenTieMove.mzdConcat_eq
+#check @M4ri.GenTieMove.mzdStack_eq
 
 end M4ri.Props.C08
